@@ -21,6 +21,18 @@ ERRATA_OPCODE = {
     ("fsqrt", "D9 FE"): "D9 FA",            # D9 FE is fsin (listed twice); fsqrt is D9 FA (SDM vol. 2A FSQRT)
     ("lea", "67 8D /r"): "66 8D /r",        # the r16 form takes the operand-size prefix 66, not the address-size prefix 67
 }
+# wrong mandatory prefix / map in the database (the assembler and llvm-mc agree on the manuals' value)
+ERRATA_FIELDS = {
+    ("vmovups", "VEX.Lxy.66.0F.WIG 10 /r"): {"pp": "NP"},
+    ("vmovups", "VEX.Lxy.66.0F.WIG 11 /r"): {"pp": "NP"},
+    ("vmovupd", "VEX.Lxy.NP.0F.WIG 10 /r"): {"pp": "66"},
+    ("vmovupd", "VEX.Lxy.NP.0F.WIG 11 /r"): {"pp": "66"},
+    ("vmovntps", "EVEX.xyz.66.0F.W0 2B /r"): {"pp": "NP"},
+    ("vandnps", "EVEX.xyz.66.W0 55 /r"): {"pp": "NP", "mm": "0F"},
+}
+# wrong operand order letters: vpcompressb/w store the SOURCE in ModRM.reg (SDM: "A" encoding, ModRM:r/m (w), ModRM:reg (r))
+ERRATA_ENCODING = {"vpcompressb": "MR", "vpcompressw": "MR"}
+T1S_SUFFIX_ELEM = {"b": 1, "w": 2, "d": 4, "q": 8, "ps": 4, "pd": 8}
 IMM_TOKEN_BYTES = {"ib": 1, "iw": 2, "id": 4, "iq": 8, "/is4": 1, "if": 6}
 
 
@@ -111,6 +123,11 @@ def translate(f):
         if f["name"] == "lea":
             op["_67h"] = False
             op["pp"] = "66"
+    op.update(ERRATA_FIELDS.get((f["name"], opstr), {}))
+    # "D9 F3" (fpatan) ...: the reader takes the second byte F2/F3 of an x87 opcode for a mandatory prefix
+    if f["prefix"] == "" and len(toks) == 2 and toks[0] in ("D8", "D9", "DA", "DB", "DC", "DD", "DE", "DF") and toks[1] in ("F2", "F3") \
+            and op.get("byte") == toks[0] and op.get("pp") == toks[1]:
+        op["mm"], op["byte"], op["pp"] = toks[0], toks[1], ""
     hexes = [t for t in toks if len(t) == 2 and all(c in "0123456789ABCDEF" for c in t)]
     # "0F AE E8" / "F3 0F 1E FB": the reader keeps the LAST byte in opcode.byte and turns it into mod/modr/modrm digits;
     # the primary opcode byte is the one before it
@@ -177,7 +194,7 @@ def translate(f):
 
     # roles
     ops = f["operands"]
-    enc = f["encoding"]
+    enc = ERRATA_ENCODING.get(f["name"], f["encoding"])
     letters = [c for c in enc if c in "RVMS"] if enc not in ("OP", "NONE") else []
     rolemap = {"R": "reg", "V": "vvvv", "M": "rm", "S": "is4"}
     # encodable operands; when the database's encoding letters do not fit their number (a few inconsistent entries:
@@ -240,14 +257,35 @@ def translate(f):
             j = [k for k, r2 in enumerate(roles) if r2 == "rm" and ops[k]["reg"] and not ops[k]["mem"]]
             if len(j) == 1:
                 roles[i], roles[j[0]] = "rm", "reg"
+    # a ModRM register / memory operand needs a ModRM byte even when the opcode string forgot its "/r" (gather forms)
+    if mod_kind == 0 and any(r2 in ("reg", "rm") for r2 in roles):
+        mod_kind, mr, mrm = 1, 8, 8
+    # "[R]" on a /digit form means the register sits in ModRM.rm (extrq, rdpid, senduipi ...)
+    if mr < 8:
+        roles = ["rm" if r2 == "reg" else r2 for r2 in roles]
+    # full / half / quarter / eighth vector tuples: the fraction must agree with the size of the memory operand; where the
+    # database's tuple type contradicts its own operand (vcvtph2psx: "qv" with a half-vector operand) the operand decides
+    vbytes = max([{"xmm": 16, "ymm": 32, "zmm": 64}.get(o["reg"], 0) for o in ops] + [0])
+    frac = {1: 1, 3: 1, 2: 2, 9: 2, 14: 4, 10: 4, 11: 8}
+    if tuple_ in frac and lv in (0, 1, 2) and mem_size and not f["vsibReg"]:
+        vl_bytes = (16, 32, 64)[lv]
+        if vl_bytes // frac[tuple_] != mem_size:
+            for t2, fr in frac.items():
+                if (t2 in (1, 2, 14)) == (tuple_ in (1, 2, 14)) and vl_bytes // fr == mem_size:
+                    tuple_ = t2
+                    break
     elem = 0
     if tuple_ in (1, 2, 14):
         elem = bcst_elem
     elif tuple_ in TUPLE_COUNT:
         elem = 0 if f["vsibReg"] else mem_size // TUPLE_COUNT[tuple_]
+        if tuple_ == 4 and mem_size > 8:
+            # tuple1-scalar with a whole-vector memory operand (compress / expand): element size from the mnemonic
+            sfx = [v for k2, v in T1S_SUFFIX_ELEM.items() if f["name"].endswith(k2)]
+            elem = max(sfx) if f["name"].endswith(("ps", "pd")) else (sfx[0] if sfx else 0)
     words = ["form", f["name"], modes, space, pp, map_, w, lv, opcode, int(ri), mod_kind, mr, mrm, imm_bytes, f["rel"], int(f["moff"]),
              osz, int(bool(op.get("_67h"))), tuple_, elem, int(f["kmask"]), int(f["zmask"]), int(f["er"]), int(f["sae"]), int(f["broadcast"]),
-             len(ops)]
+             int(f["name"] in ("lcall", "ljmp") and sum(1 for o in ops if o["imm"]) == 2), len(ops)]
     for o, role in zip(ops, roles):
         alts = op_alts(o)
         words += [ROLE[role], int(o["implicit"]), len(alts)] + alts
